@@ -416,7 +416,7 @@ val mk_rect : point -> point -> bool -> z option -> bool -> rect
 
 val seg_bounds : point -> point -> point * point
 
-val celltext_end_cell : celltext -> cell
+val celltext_last_cell : celltext -> cell
 
 val polygon_bounds : polygon -> point * point
 
